@@ -9,7 +9,12 @@ The oracle is written from the mathematical definitions (phi'(s)/s * (y - x)), n
 nothing with the Lean model.  `mass` is the sum of absolute contributions (the natural scale of the gradient:
 relative statements about a sum of leaves are made against it), `massd` bounds the rounding error that is specific
 to forward-mode AD of the kernel VALUE: forming `2y - 2x` from `xx - 2xy + yy`, and the cancellation
-`(1 + 2r/3) e^{-r} - (1 + r + r^2/3) e^{-r}` in the Matern profiles at tiny r."""
+`(1 + 2r/3) e^{-r} - (1 + r + r^2/3) e^{-r}` in the Matern profiles at tiny r.
+
+Powers: for a natural-number exponent m >= 1 the base may take ANY sign (e.g. a Linear kernel): `u -> u^m` and the
+chain-rule factor `m u^(m-1)` are bounded over an interval [a, b] of any sign by parity (odd powers are monotone,
+even powers have their minimum 0 inside an interval that contains 0).  For every other exponent the base must be
+positive (the interval is clamped at 0, as in covoracle)."""
 import numpy as np
 from .common import ad_indices
 from . import covoracle as co
@@ -46,6 +51,69 @@ def psi(kind, ls, alpha, s):
             base = 1 + s * s / (2 * alpha * ls * ls)
             return -(1.0 / ls ** 2) * base ** (-alpha - 1), (alpha + 1) * np.log(base)
     raise ValueError(kind)
+
+
+def is_natural(p):
+    """p is a natural number >= 1 (the exponents for which base ** p is defined and smooth for a base of any sign)."""
+    p = float(p)
+    return 1.0 <= p <= 64.0 and p == np.floor(p)
+
+
+def ipow_interval(lo, hi, m):
+    """{u^m : lo <= u <= hi} for an integer m >= 0 and intervals of any sign."""
+    m = int(m)
+    lo, hi = np.asarray(lo, float), np.asarray(hi, float)
+    if m == 0:
+        return np.ones_like(lo), np.ones_like(hi)
+    with np.errstate(over="ignore", invalid="ignore"):
+        a, b = lo ** m, hi ** m
+    if m % 2 == 1:
+        return a, b                                   # odd power: increasing
+    straddle = (lo < 0) & (hi > 0)
+    return np.where(straddle, 0.0, np.minimum(a, b)), np.maximum(a, b)
+
+
+def _logmag(lo, hi):
+    with np.errstate(divide="ignore", invalid="ignore"):
+        return np.abs(np.log(np.maximum(np.maximum(np.abs(lo), np.abs(hi)), 1e-300)))
+
+
+def value_interval(t, X, Y):
+    """(lo, hi) arrays (n, m) enclosing the kernel VALUE: covoracle.interval, extended to natural-number powers of
+    sub-expressions of any sign (covoracle clamps every power base at 0, which is only right for positive bases)."""
+    with np.errstate(all="ignore"):
+        return _value_interval(t, X, Y)
+
+
+def _value_interval(t, X, Y):
+    k = t[0]
+    if k in ("M32", "M52", "EQ", "EX", "RQ", "LIN"):
+        return co.interval(t, X, Y)
+    ad = t[-1]
+    Xs, Ys = co.sel(ad, X), co.sel(ad, Y)
+    l = _value_interval(t[1], Xs, Ys)
+    if k == "ADD":
+        r = _value_interval(t[2], Xs, Ys)
+        return co.widen(l[0] + r[0], l[1] + r[1], 4 * EPS)
+    if k == "ADDC":
+        return co.widen(l[0] + t[2], l[1] + t[2], 4 * EPS)
+    if k == "MUL":
+        r = _value_interval(t[2], Xs, Ys)
+        c = np.stack([l[0] * r[0], l[0] * r[1], l[1] * r[0], l[1] * r[1]])
+        return co.widen(c.min(0), c.max(0), 4 * EPS)
+    if k == "MULC":
+        c = np.stack([l[0] * t[2], l[1] * t[2]])
+        return co.widen(c.min(0), c.max(0), 4 * EPS)
+    if k == "POW":
+        p = float(t[2])
+        if is_natural(p):
+            a, b = ipow_interval(l[0], l[1], int(p))
+            return co.widen(a, b, 4e-14 * (1 + p * _logmag(l[0], l[1])))
+        lo = np.maximum(l[0], 0.0)
+        a, b = lo ** p, l[1] ** p
+        arg = np.abs(p * np.log(np.maximum(lo, 1e-300)))
+        return co.widen(np.minimum(a, b), np.maximum(a, b), 4e-14 * (1 + arg))
+    raise ValueError(t)
 
 
 def scatter(ad, d, arr):
@@ -114,7 +182,7 @@ def _grad_interval(t, X, Y):
             lo, hi = widen((L["lo"] + R["lo"], L["hi"] + R["hi"]), 4 * EPS)
             mass, massd = L["mass"] + R["mass"], L["massd"] + R["massd"]
         else:
-            lk, rk = co.interval(t[1], Xs, Ys), co.interval(t[2], Xs, Ys)
+            lk, rk = _value_interval(t[1], Xs, Ys), _value_interval(t[2], Xs, Ys)
             a = imul((L["lo"], L["hi"]), (rk[0][..., None], rk[1][..., None]))
             b = imul((lk[0][..., None], lk[1][..., None]), (R["lo"], R["hi"]))
             lo, hi = widen((a[0] + b[0], a[1] + b[1]), 8 * EPS)
@@ -130,11 +198,17 @@ def _grad_interval(t, X, Y):
         mass, massd, gmin, well = L["mass"] * abs(c), L["massd"] * abs(c), L["gmin"], L["wellcond"]
     elif k == "POW":
         p = float(t[2])
-        kl = co.interval(t[1], Xs, Ys)
-        klo = np.maximum(kl[0], 0.0)
-        with np.errstate(divide="ignore", invalid="ignore", over="ignore"):
-            a, b = p * klo ** (p - 1), p * kl[1] ** (p - 1)
-            arg = np.abs((p - 1) * np.log(np.maximum(klo, 1e-300)))
+        kl = _value_interval(t[1], Xs, Ys)
+        if is_natural(p):
+            # d/du u^m = m u^(m-1) for a base value u of any sign (m - 1 >= 0 is an integer: bound by parity)
+            a, b = ipow_interval(kl[0], kl[1], int(p) - 1)
+            a, b = p * a, p * b
+            arg = (p - 1) * _logmag(kl[0], kl[1])
+        else:
+            klo = np.maximum(kl[0], 0.0)
+            with np.errstate(divide="ignore", invalid="ignore", over="ignore"):
+                a, b = p * klo ** (p - 1), p * kl[1] ** (p - 1)
+                arg = np.abs((p - 1) * np.log(np.maximum(klo, 1e-300)))
         coef = widen((np.minimum(a, b), np.maximum(a, b)), 1e-13 * (1 + arg))
         lo, hi = widen(imul((coef[0][..., None], coef[1][..., None]), (L["lo"], L["hi"])), 4 * EPS)
         ca = np.maximum(np.abs(coef[0]), np.abs(coef[1]))[..., None]
